@@ -43,6 +43,8 @@ def run(ctx):
         os.makedirs(d)
         return d
 
+    CLOSED = [()]
+
     def tool(args, env=None, cwd=None, timeout=120, nofile=None):
         e = dict(os.environ)
         if env:
@@ -51,6 +53,9 @@ def run(ctx):
         if nofile:
             import resource
             pre = lambda: resource.setrlimit(resource.RLIMIT_NOFILE, (nofile, nofile))     # the process may hold that many open files at a time
+        if CLOSED[0]:
+            cl = tuple(CLOSED[0])
+            pre = lambda: [os.close(f) for f in cl]      # the tool starts with these standard descriptors closed (the files it opens then get their numbers)
         p = subprocess.run(args, stdout=subprocess.PIPE, stderr=subprocess.PIPE, env=e, cwd=cwd, timeout=timeout, preexec_fn=pre, stdin=subprocess.DEVNULL)
         ctx.stat("evaluations")
         return p.returncode, p.stdout, p.stderr
@@ -635,6 +640,24 @@ def run(ctx):
                 ctx.fail("asconsum:unreadable:%s" % flag, "argument %s: exit %d, output %r" % (os.path.basename(bad), rc, o[:200]))
             ctx.stat("nontrivial")
 
+    # ---------------- the process environment: standard descriptors closed at start (round trip, wrong password, key generation, digests)
+    for cl in ((0,), (1,), (2,), (0, 1, 2)):
+        CLOSED[0] = cl
+        orig_fail = ctx.fail
+        ctx.fail = lambda key, *a, **k: orig_fail("closed-descriptors-%s:" % "".join(map(str, cl)) + key, *a, **k)
+        try:
+            common.parallel(roundtrip, [(n, pk, 1) for n in (0, 17, B + 1) for pk in ("short", "keyfile")])
+            d = wd()
+            write(os.path.join(d, "s.bin"), content(100, 1))
+            rc, o, e = tool([summ, "-h", "s.bin"], cwd=d)
+            want = subprocess.run([refsum, "h", os.path.join(d, "s.bin")], stdout=subprocess.PIPE).stdout.decode().strip()
+            if 1 not in cl and (rc != 0 or o.decode().strip() != "%s  s.bin" % want):
+                ctx.fail("asconsum:digest:-h", "exit %d, output %r" % (rc, o[:100]))
+            if 1 in cl and open(os.path.join(d, "s.bin"), "rb").read() != content(100, 1):
+                ctx.fail("asconsum:digest:-h", "the hashed file was modified (standard output was closed and the digest went to the descriptor of the next file opened)")
+        finally:
+            ctx.fail = orig_fail
+            CLOSED[0] = ()
     # ---------------- the tools as a libc without getopt() gets them (their own command-line parser): the option-handling parts again
     try:
         _, crypt, summ = build_tools(nogetopt=True)
